@@ -1,8 +1,438 @@
-import Isotp.Process
+import Isotp.Proofs.Timers
 /-
-  C07 — property theorems (see DESIGN.md §6). Helper lemmas live in Isotp/Proofs.
+  C07 — timeouts fire exactly when the deadline is missed, and only then.
+
+  Model: N_Cr = `s.timerCf` (timeout `cfg.tCf`), tested by `checkTimeoutsRx` after every `rxfn` return of
+  the rx loop of `process` (`rxArrive` below is that step); N_Bs = `s.timerFc` (timeout `cfg.tFc`), tested
+  inside `processTx` after the Flow Control mailbox has been consumed.
+  Helper lemmas: `Isotp/Proofs/Timers.lean`.
+
+  Vocabulary (all in `Isotp.State`, defined in the helper file):
+  * `RxTimerInv s`  : (rx idle → N_Cr stopped) ∧ N_Cr.timeout = cfg.tCf
+  * `RxPendInv s`   : rx idle → no ContinueToSend Flow Control pending
+  * `RxTimerInv2 s` : WAIT_CF with N_Cr stopped → a ContinueToSend is pending (its hand-out restarts N_Cr)
+  * `RxInv s`       : the three together (this is the inductive invariant; `RxTimerInv` alone is not, see
+                      `rxTimerInv_alone_not_inductive`)
+  * `TxTimerInv s`  : N_Bs runs exactly in WAIT_FC, and N_Bs.timeout = cfg.tFc
+  * `TimerInv s`    : `RxInv s ∧ TxTimerInv s`
+  * `LogExt P s s'` : `s'.log = new ++ s.log` with every event of `new` satisfying `P`
+  * `TxEv e`        : `e` is `done`, `pull` or an error of class BadGenerator / UnexpectedFlowControl /
+                      UnsupportedWaitFrame / MaximumWaitFrameReached / Overflow (no timeout, no frame)
 -/
+set_option linter.unusedSimpArgs false
+set_option linter.unusedVariables false
+
 namespace Isotp.C07
 open Isotp State
 
+/-! concrete layer used by the non-vacuity examples and the witnesses -/
+def h11 : Half := { mode := .n11, txid := some 0x123, rxid := some 0x456, ta := none, sa := none, ae := none,
+                    physId := 0, funcId := 0, rxOnly := false, txOnly := false }
+def addr : Addr := { tx := h11, rx := h11 }
+def cfg : Cfg := {}
+
+/-! ## 1 + 3. the timer invariants hold in every reachable state -/
+
+/-- states reachable from a freshly constructed layer by the public operations (and the two harness
+    operations `advance` = time passes, `pushFrame` = the bus delivers a frame) -/
+inductive Reachable : State → Prop
+  | init (c : Cfg) (a : Addr) : Reachable (State.init c a)
+  | send {s} (a : SendArgs) : Reachable s → Reachable (s.send a).1
+  | recv {s} : Reachable s → Reachable s.recv.1
+  | process {s} (doRx doTx : Bool) : Reachable s → Reachable (s.process doRx doTx).1
+  | stopSending {s} (ok : Bool) : Reachable s → Reachable (s.stopSending ok)
+  | stopReceiving {s} : Reachable s → Reachable s.stopReceiving
+  | reset {s} : Reachable s → Reachable s.reset
+  | advance {s} (dt : Nat) : Reachable s → Reachable (s.advance dt)
+  | pushFrame {s} (dt : Nat) (m : CanMsg) : Reachable s → Reachable (s.pushFrame dt m)
+
+/-- the invariants hold initially -/
+theorem timer_inv_init (c : Cfg) (a : Addr) : TimerInv (State.init c a) := TimerInv_init c a
+
+/-- … and are preserved by every operation of the layer, for ANY frame `m` (a Single Frame or a too long
+    First Frame interrupting a reception included), any inbox, any flags -/
+theorem timer_inv_preserved (s : State) (h : TimerInv s) :
+    (∀ m, TimerInv (s.processRx m).1) ∧ TimerInv s.checkTimeoutsRx ∧ TimerInv s.processTx.1 ∧
+    (∀ a, TimerInv (s.send a).1) ∧ TimerInv s.recv.1 ∧ (∀ ok, TimerInv (s.stopSending ok)) ∧
+    TimerInv s.stopReceiving ∧ TimerInv s.reset ∧ (∀ dt, TimerInv (s.advance dt)) ∧
+    (∀ dt m, TimerInv (s.pushFrame dt m)) ∧
+    (∀ doTx st l, TimerInv (rxLoop doTx s st l).1) ∧ (∀ f n, TimerInv (txLoop f s n).1) ∧
+    (∀ f doRx doTx st, TimerInv (processLoop f doRx doTx s st).1) ∧
+    (∀ doRx doTx, TimerInv (s.process doRx doTx).1) :=
+  ⟨fun m => TimerInv_processRx s m h, TimerInv_checkTimeoutsRx s h, TimerInv_processTx s h,
+   fun a => TimerInv_send s a h, TimerInv_recv s h, fun ok => TimerInv_stopSending s ok h,
+   TimerInv_stopReceiving s h, TimerInv_reset s h, fun dt => TimerInv_advance s dt h,
+   fun dt m => TimerInv_pushFrame s dt m h,
+   fun doTx st l => TimerInv_loopInv.rxLoop doTx s st l h, fun f n => TimerInv_loopInv.txLoop f s n h,
+   fun f doRx doTx st => TimerInv_loopInv.processLoop f doRx doTx s st h,
+   fun doRx doTx => TimerInv_loopInv.process doRx doTx s h⟩
+
+theorem reachable_timer_inv {s : State} (h : Reachable s) : TimerInv s := by
+  induction h with
+  | init c a => exact timer_inv_init c a
+  | send a _ ih => exact (timer_inv_preserved _ ih).2.2.2.1 a
+  | recv _ ih => exact (timer_inv_preserved _ ih).2.2.2.2.1
+  | process doRx doTx _ ih => exact TimerInv_loopInv.process doRx doTx _ ih
+  | stopSending ok _ ih => exact TimerInv_stopSending _ ok ih
+  | stopReceiving _ ih => exact TimerInv_stopReceiving _ ih
+  | reset _ ih => exact TimerInv_reset _ ih
+  | advance dt _ ih => exact TimerInv_advance _ dt ih
+  | pushFrame dt m _ ih => exact TimerInv_pushFrame _ dt m ih
+
+/-- no ConsecutiveFrameTimeoutError while no reception is in progress: with the receiver idle the N_Cr
+    check does nothing at all, however late it is -/
+theorem rx_idle_quiet (s : State) (h : RxTimerInv s) (hi : s.rxState = .idle) :
+    s.checkTimeoutsRx = s :=
+  checkTimeoutsRx_id s h.2 (not_rxDeadlineMissed_of_idle s h hi)
+
+theorem rx_idle_quiet_reachable {s : State} (h : Reachable s) (hi : s.rxState = .idle) :
+    s.checkTimeoutsRx = s := rx_idle_quiet s (reachable_timer_inv h).1.1 hi
+
+/-- a reception cannot hang without a running N_Cr timer: in WAIT_CF the timer runs, or the
+    ContinueToSend whose hand-out restarts it is pending — and the next tx pass does restart it -/
+theorem rx_waitCf_guarded {s : State} (h : Reachable s) (hw : s.rxState = .waitCf) :
+    (∃ t0, s.timerCf.start = some t0) ∨
+    (s.pendingFc = true ∧ s.pendingFcStatus = some 0 ∧
+      s.processTx.1.timerCf = { start := some s.now, timeout := s.cfg.tCf }) := by
+  have h2 := (reachable_timer_inv h).1.2.2
+  cases hs : s.timerCf.start with
+  | some t0 => exact Or.inl ⟨t0, rfl⟩
+  | none =>
+    obtain ⟨hp, hst⟩ := h2 hw hs
+    exact Or.inr ⟨hp, hst, processTx_restarts_timerCf s hp hst⟩
+
+/-- `RxTimerInv` by itself is not inductive: a (unreachable) idle state with a ContinueToSend pending
+    satisfies it, and `processTx` would start N_Cr there. `RxPendInv` is what excludes such states. -/
+theorem rxTimerInv_alone_not_inductive :
+    ∃ s : State, RxTimerInv s ∧ ¬ RxTimerInv s.processTx.1 :=
+  ⟨{ State.init cfg addr with pendingFc := true, pendingFcStatus := some 0 },
+   by unfold RxTimerInv; decide +kernel, by unfold RxTimerInv; decide +kernel⟩
+
+/-! ## 2. N_Cr fires iff the deadline is missed -/
+
+/-- `checkTimeoutsRx` reports `ConsecutiveFrameTimeout` — one event, reception closed with the buffer
+    dropped, nothing delivered — exactly when N_Cr runs since `t0` and more than `tCf` has elapsed (or
+    `tCf = 0`); this can only be in WAIT_CF; otherwise it is the identity -/
+theorem rx_iff (s : State) (h : RxTimerInv s) :
+    ((∃ t0, s.timerCf.start = some t0 ∧ (s.now - t0 > s.cfg.tCf ∨ s.cfg.tCf = 0)) →
+        s.rxState = .waitCf ∧
+        s.checkTimeoutsRx =
+          { s with log := .err s.now .ConsecutiveFrameTimeout :: s.log, actualRxdl := none,
+                   rxState := .idle, rxBuf := [], pendingFc := false, lastFc := none,
+                   timerCf := { start := none, timeout := s.cfg.tCf } }) ∧
+    (¬ (∃ t0, s.timerCf.start = some t0 ∧ (s.now - t0 > s.cfg.tCf ∨ s.cfg.tCf = 0)) →
+        s.checkTimeoutsRx = s) := by
+  refine ⟨fun hd => ⟨?_, checkTimeoutsRx_fire s h.2 hd⟩, fun hd => checkTimeoutsRx_id s h.2 hd⟩
+  cases hs : s.rxState with
+  | idle => exact absurd hd (not_rxDeadlineMissed_of_idle s h hs)
+  | waitCf => rfl
+
+/-- the same as an equivalence on the log: one new event, or none -/
+theorem rx_timeout_logged_iff (s : State) (h : RxTimerInv s) :
+    (s.checkTimeoutsRx.log = .err s.now .ConsecutiveFrameTimeout :: s.log ↔
+      ∃ t0, s.timerCf.start = some t0 ∧ (s.now - t0 > s.cfg.tCf ∨ s.cfg.tCf = 0)) ∧
+    (s.checkTimeoutsRx.log = s.log ↔
+      ¬ ∃ t0, s.timerCf.start = some t0 ∧ (s.now - t0 > s.cfg.tCf ∨ s.cfg.tCf = 0)) ∧
+    s.checkTimeoutsRx.rxQueue = s.rxQueue := by
+  by_cases hd : ∃ t0, s.timerCf.start = some t0 ∧ (s.now - t0 > s.cfg.tCf ∨ s.cfg.tCf = 0)
+  · have := ((rx_iff s h).1 hd).2
+    rw [this]
+    refine ⟨⟨fun _ => hd, fun _ => rfl⟩, ⟨fun hl => ?_, fun hn => absurd hd hn⟩, rfl⟩
+    have := congrArg List.length hl
+    simp at this
+  · have := (rx_iff s h).2 hd
+    rw [this]
+    refine ⟨⟨fun hl => ?_, fun h' => absurd h' hd⟩, ⟨fun _ => hd, fun _ => rfl⟩, rfl⟩
+    have := congrArg List.length hl
+    simp at this
+
+/-- the step of the rx loop for a frame addressed to the layer: `rxArrive` (clock advanced by the
+    blocking delay, frame logged, N_Cr checked), then `processRx` -/
+theorem rxLoop_step (doTx : Bool) (s : State) (st : Stats) (dt : Nat) (m : CanMsg)
+    (rest : List (Nat × CanMsg)) (hme : s.addr.rx.isForMe m = true) :
+    rxLoop doTx s st ((dt, m) :: rest) =
+      (let r := (s.rxArrive dt m rest).processRx m
+       let st1 : Stats := { st with received := st.received + 1, processed := st.processed + 1 }
+       let st' : Stats := if r.2.2 then { st1 with frames := st1.frames + 1 } else st1
+       if r.2.1 then (r.1, st', false)
+       else if doTx && r.1.txTimeDriven then (r.1, st', true)
+       else rxLoop doTx r.1 st' rest) :=
+  rxLoop_cons_forMe doTx s st dt m rest hme
+
+/-- a frame processed before the deadline is always accepted: an in-sequence Consecutive Frame
+    (`CfInSeq`: decodes to `cf sn data`, WAIT_CF, `sn` is the expected number, RX_DL acceptable) returned
+    by `rxfn` at `now + dt ≤ t0 + tCf` passes the N_Cr check untouched, no error is reported, its data is
+    appended (or the completed message delivered), and N_Cr is fresh again -/
+theorem accepted_before_deadline (s : State) (dt : Nat) (m : CanMsg) (rest : List (Nat × CanMsg))
+    (t0 : Nat) (d : Decoded) (sn : Nat) (data : Bytes)
+    (hinv : RxTimerInv s) (ht : s.timerCf.start = some t0) (hpos : 0 < s.cfg.tCf)
+    (hle : s.now + dt ≤ t0 + s.cfg.tCf) (hcf : CfInSeq s m d sn data) :
+    let s1 := s.rxArrive dt m rest
+    let r := (s1.processRx m).1
+    s1 = ({ s with inbox := rest, now := s.now + dt } : State).emit (.rx (s.now + dt) m) ∧
+    ((s.cfBuf data).length < s.rxFrameLen →
+      r.log = .rx (s.now + dt) m :: s.log ∧ r.rxBuf = s.cfBuf data ∧ r.rxState = .waitCf ∧
+      r.lastSeq = sn ∧ r.rxQueue = s.rxQueue ∧
+      (r.timerCf.start = some (s.now + dt) ∨
+        (r.timerCf.start = none ∧ r.pendingFc = true ∧ r.pendingFcStatus = some 0))) ∧
+    (s.rxFrameLen ≤ (s.cfBuf data).length →
+      r.log = .deliver (s.cfBuf data) :: .rx (s.now + dt) m :: s.log ∧
+      r.rxQueue = s.rxQueue ++ [s.cfBuf data] ∧ r.rxState = .idle ∧ r.timerCf.start = none) := by
+  have h1 : s.rxArrive dt m rest =
+      ({ s with inbox := rest, now := s.now + dt } : State).emit (.rx (s.now + dt) m) :=
+    checkTimeoutsRx_id _ hinv.2 (not_rxDeadlineMissed_of_le _ t0 ht hpos hle)
+  have hcf' : CfInSeq (({ s with inbox := rest, now := s.now + dt } : State).emit (.rx (s.now + dt) m))
+      m d sn data := ⟨hcf.dec, hcf.pdu, hcf.wait, hcf.seq, hcf.rxdl⟩
+  simp only [h1]
+  refine ⟨trivial, fun hl => ?_, fun hl => ?_⟩
+  · have := processRx_cf_more hcf' hl
+    exact ⟨this.1, this.2.1, this.2.2.2.2.1, this.2.2.1, this.2.2.2.1, this.2.2.2.2.2.1⟩
+  · have := processRx_cf_last hcf' hl
+    exact ⟨this.1, this.2.1, this.2.2.1, this.2.2.2.1⟩
+
+/-- the three points where N_Cr is (re)started, always at the current instant: an accepted First Frame,
+    an accepted intermediate Consecutive Frame (unless it ends a block: then the timer is stopped until
+    the Flow Control goes out), and the hand-out of the ContinueToSend by `processTx` -/
+theorem ncr_restart_points (s : State) (m : CanMsg) (d : Decoded) :
+    (∀ len data esc, FfAccepted s m d len data esc →
+      (s.processRx m).1.rxState = .waitCf ∧
+      (s.processRx m).1.timerCf = { start := some s.now, timeout := s.cfg.tCf } ∧
+      (s.processRx m).1.pendingFc = true ∧ (s.processRx m).1.pendingFcStatus = some 0) ∧
+    (∀ sn data, CfInSeq s m d sn data → (s.cfBuf data).length < s.rxFrameLen →
+      ((s.processRx m).1.timerCf.start = some s.now ∨
+        ((s.processRx m).1.timerCf.start = none ∧ (s.processRx m).1.pendingFc = true ∧
+          (s.processRx m).1.pendingFcStatus = some 0))) ∧
+    (s.pendingFc = true → s.pendingFcStatus = some 0 →
+      s.processTx.1.timerCf = { start := some s.now, timeout := s.cfg.tCf }) := by
+  refine ⟨fun len data esc h => ?_, fun sn data h hl => (processRx_cf_more h hl).2.2.2.2.2.1,
+    processTx_restarts_timerCf s⟩
+  have := processRx_ff_start h
+  exact ⟨this.1, this.2.2.2.1, this.2.2.2.2.1, this.2.2.2.2.2⟩
+
+/-! ## 3. N_Bs: quiet unless waiting for a Flow Control -/
+
+/-- N_Bs cannot be expired outside WAIT_FC — in particular not while idle -/
+theorem tx_idle_quiet (s : State) (h : TxTimerInv s) (hs : s.txState ≠ .waitFc) (now : Nat) :
+    s.timerFc.timedOut now = false := not_timedOut_of_not_waitFc s h hs now
+
+/-- a whole transmit pass that starts idle reports no FlowControlTimeoutError (whatever is in the Flow
+    Control mailbox, whatever the queue holds): its new events are all `TxEv` -/
+theorem tx_idle_pass_quiet (s : State) (h : TxTimerInv s) (hi : s.txState = .idle) :
+    ∃ new, s.processTx.1.log = new ++ s.log ∧ ∀ e ∈ new, TxEv e ∧
+      ∀ t, e ≠ .err t .FlowControlTimeout := by
+  obtain ⟨new, h1, h2⟩ := processTx_idle_quiet s h hi
+  refine ⟨new, h1, fun e he => ⟨h2 e he, fun t heq => ?_⟩⟩
+  have := h2 e he
+  rw [heq] at this
+  simp [TxEv, txErr] at this
+
+/-- the points where N_Bs is started, always at the current instant: whenever a pass enters WAIT_FC
+    (First Frame sent directly or out of standby, end of a block), and at an accepted Wait frame -/
+theorem nbs_start_points (s : State) (h : TxTimerInv s) :
+    (s.txState ≠ .waitFc → s.processTx.1.txState = .waitFc →
+      s.processTx.1.timerFc = { start := some s.now, timeout := s.cfg.tFc }) ∧
+    (∀ f, s.txState = .waitFc → s.lastFc = some f → f.status = 1 → s.wftCnt < s.cfg.wftmax →
+      ¬ (∃ t0, s.timerFc.start = some t0 ∧ (s.now - t0 > s.cfg.tFc ∨ s.cfg.tFc = 0)) →
+      s.txFc = ({ s with lastFc := none, wftCnt := s.wftCnt + 1, txState := .waitFc,
+                         timerFc := { start := some s.now, timeout := s.cfg.tFc } }, false)) :=
+  ⟨processTx_enters_waitFc s h, fun f hw hf h1 hm hd => txFc_wait_restarts s hw h.2.2 hd f hf h1 hm⟩
+
+/-! ## 4. N_Bs fires iff the deadline is missed -/
+
+/-- deadline missed in WAIT_FC (no Flow Control of our own to send first, mailbox empty or holding
+    anything but Overflow — a ContinueToSend or Wait that came too late is NOT honoured) and nothing else
+    queued: the pass reports exactly one FlowControlTimeoutError, completes the request with failure,
+    outputs no frame, and leaves the FSM idle with N_Bs stopped -/
+theorem tx_timeout_fires (s : State) (r : Req) (t0 : Nat)
+    (hp : s.pendingFc = false) (hw : s.txState = .waitFc) (ha : s.active = some r)
+    (hto : s.timerFc.timeout = s.cfg.tFc) (ht : s.timerFc.start = some t0)
+    (hd : s.now - t0 > s.cfg.tFc ∨ s.cfg.tFc = 0)
+    (hov : ∀ f, s.lastFc = some f → f.status ≠ 2) (hq : s.txQueue = []) :
+    s.processTx.2 = (none, false) ∧
+    s.processTx.1.log = .done r.id false :: .err s.now .FlowControlTimeout :: s.log ∧
+    s.processTx.1.txState = .idle ∧ s.processTx.1.timerFc.start = none ∧
+    s.processTx.1.active = none ∧ s.processTx.1.lastFc = none := by
+  have := processTx_fc_timeout_empty s hp hw hto ⟨t0, ht, hd⟩ hov hq
+  rw [this]
+  have hf := txTimedOutState_fields s
+  exact ⟨rfl, txTimedOutState_log s r ha, hf.1, hf.2.1, hf.2.2.1, hf.2.2.2.2.2⟩
+
+/-- the same with requests queued behind: the pass goes on from the failed idle state (it may start the
+    next request), and logs the one timeout report, the failed completion, then only `TxEv` events -/
+theorem tx_timeout_fires_any_queue (s : State) (r : Req) (t0 : Nat)
+    (hp : s.pendingFc = false) (hw : s.txState = .waitFc) (ha : s.active = some r)
+    (hto : s.timerFc.timeout = s.cfg.tFc) (ht : s.timerFc.start = some t0)
+    (hd : s.now - t0 > s.cfg.tFc ∨ s.cfg.tFc = 0)
+    (hov : ∀ f, s.lastFc = some f → f.status ≠ 2) :
+    s.processTx = s.txTimedOutState.txFsm (s.rl.allowedBytes s.cfg.rlBitMax) ∧
+    ∃ new, s.processTx.1.log =
+        new ++ .done r.id false :: .err s.now .FlowControlTimeout :: s.log ∧ ∀ e ∈ new, TxEv e := by
+  refine ⟨processTx_fc_timeout s hp hw hto ⟨t0, ht, hd⟩ hov, ?_⟩
+  obtain ⟨new, h1, h2⟩ := processTx_fc_timeout_log s hp hw hto ⟨t0, ht, hd⟩ hov
+  exact ⟨new, by rw [h1, txTimedOutState_log s r ha], h2⟩
+
+/-- the one exception to "iff": an Overflow Flow Control in the mailbox ends the transmission by itself
+    (failed completion + OverflowError), deadline missed or not, and no timeout is reported -/
+theorem tx_overflow_preempts_timeout (s : State) (hp : s.pendingFc = false) (f : FcFrame)
+    (hf : s.lastFc = some f) (h2 : f.status = 2) :
+    s.processTx =
+      ((({ s with lastFc := none } : State).stopSending false).error .Overflow, none, false) :=
+  processTx_overflow s hp f hf h2
+
+/-- before the deadline (`now - t0 ≤ tFc`, `tFc > 0`) the pass reports no FlowControlTimeoutError -/
+theorem tx_before_deadline_quiet (s : State) (t0 : Nat)
+    (hp : s.pendingFc = false) (hto : s.timerFc.timeout = s.cfg.tFc) (ht : s.timerFc.start = some t0)
+    (hpos : 0 < s.cfg.tFc) (hle : s.now - t0 ≤ s.cfg.tFc) :
+    ∃ new, s.processTx.1.log = new ++ s.log ∧ ∀ e ∈ new, TxEv e ∧
+      ∀ t, e ≠ .err t .FlowControlTimeout := by
+  have hd : ¬ TxDeadlineMissed s := by
+    rintro ⟨t1, h1, h2⟩
+    rw [ht] at h1; cases h1; omega
+  obtain ⟨new, h1, h2⟩ := processTx_before_deadline s hp hto hpos hd
+  refine ⟨new, h1, fun e he => ⟨h2 e he, fun t heq => ?_⟩⟩
+  have := h2 e he
+  rw [heq] at this
+  simp [TxEv, txErr] at this
+
+/-- … and a ContinueToSend in the mailbox is honoured: N_Bs stopped, FSM in TRANSMIT_CF with the
+    announced block size, and the pass carries on sending from that state (`ctsState`) -/
+theorem tx_cts_honoured (s : State) (t0 : Nat) (f : FcFrame)
+    (hp : s.pendingFc = false) (hw : s.txState = .waitFc)
+    (hto : s.timerFc.timeout = s.cfg.tFc) (ht : s.timerFc.start = some t0)
+    (hpos : 0 < s.cfg.tFc) (hle : s.now - t0 ≤ s.cfg.tFc)
+    (hf : s.lastFc = some f) (h0 : f.status = 0) :
+    s.processTx = (s.ctsState f).txFsm (s.rl.allowedBytes s.cfg.rlBitMax) ∧
+    (s.ctsState f).txState = .transmitCf ∧ (s.ctsState f).timerFc.start = none ∧
+    (s.ctsState f).remoteBs = some f.bs ∧ (s.ctsState f).lastFc = none := by
+  have hd : ¬ TxDeadlineMissed s := by
+    rintro ⟨t1, h1, h2⟩
+    rw [ht] at h1; cases h1; omega
+  exact ⟨processTx_cts_honoured s hp hw hto hd f hf h0, rfl, rfl, rfl, rfl⟩
+
+/-! ## 5. one timeout per transfer -/
+
+/-- after a ConsecutiveFrameTimeoutError the receiver is idle with N_Cr stopped, so (by 1) the check
+    stays silent — immediately, and in every later state in which the receiver is still idle -/
+theorem one_rx_timeout_per_transfer (s : State) (h : TimerInv s)
+    (hd : ∃ t0, s.timerCf.start = some t0 ∧ (s.now - t0 > s.cfg.tCf ∨ s.cfg.tCf = 0)) :
+    s.checkTimeoutsRx.rxState = .idle ∧ s.checkTimeoutsRx.timerCf.start = none ∧
+    s.checkTimeoutsRx.checkTimeoutsRx = s.checkTimeoutsRx ∧
+    TimerInv s.checkTimeoutsRx := by
+  have hi := TimerInv_checkTimeoutsRx s h
+  have he := ((rx_iff s h.1.1).1 hd).2
+  have h1 : s.checkTimeoutsRx.rxState = .idle := by rw [he]
+  exact ⟨h1, by rw [he], rx_idle_quiet _ hi.1.1 h1, hi⟩
+
+/-- after a FlowControlTimeoutError the transmitter is idle with N_Bs stopped and the invariant holds,
+    so (by 3) the next pass — and any pass that starts idle — reports no second timeout -/
+theorem one_tx_timeout_per_transfer (s : State) (h : TimerInv s) (r : Req) (t0 : Nat)
+    (hp : s.pendingFc = false) (hw : s.txState = .waitFc) (ha : s.active = some r)
+    (ht : s.timerFc.start = some t0) (hd : s.now - t0 > s.cfg.tFc ∨ s.cfg.tFc = 0)
+    (hov : ∀ f, s.lastFc = some f → f.status ≠ 2) (hq : s.txQueue = []) :
+    let s' := s.processTx.1
+    s'.txState = .idle ∧ s'.timerFc.start = none ∧ TimerInv s' ∧
+    ∃ new, s'.processTx.1.log = new ++ s'.log ∧ ∀ e ∈ new, TxEv e ∧
+      ∀ t, e ≠ .err t .FlowControlTimeout := by
+  have h1 := tx_timeout_fires s r t0 hp hw ha h.2.2.2 ht hd hov hq
+  have hi := TimerInv_processTx s h
+  exact ⟨h1.2.2.1, h1.2.2.2.1, hi, tx_idle_pass_quiet _ hi.2 h1.2.2.1⟩
+
+/-! ## non-vacuity: a concrete layer -/
+
+/-- First Frame announcing 20 bytes -/
+def ff : CanMsg := { id := 0x456, ext := false, data := [0x10, 20, 1, 2, 3, 4, 5, 6] }
+/-- the Consecutive Frame that follows it -/
+def cf1 : CanMsg := { id := 0x456, ext := false, data := [0x21, 7, 8, 9, 10, 11, 12, 13] }
+def cf1d : Decoded := { pdu := .cf 1 [7, 8, 9, 10, 11, 12, 13], canDl := 8, rxDl := 8 }
+def ffd : Decoded := { pdu := .ff 20 [1, 2, 3, 4, 5, 6] false, canDl := 8, rxDl := 8 }
+/-- ContinueToSend, block size 0, STmin 0 -/
+def fcCts : CanMsg := { id := 0x456, ext := false, data := [0x30, 0, 0] }
+
+/-- receiver in the middle of a reception (First Frame taken at t = 0) -/
+def rxMid : State := ((State.init cfg addr).processRx ff).1
+/-- the same, its Flow Control sent -/
+def rxMid' : State := rxMid.processTx.1
+
+example : rxMid.rxState = .waitCf ∧ rxMid.timerCf.start = some 0 ∧ rxMid.pendingFc = true := by
+  decide +kernel
+example : Reachable (State.init cfg addr) := .init _ _
+example : RxTimerInv rxMid := (TimerInv_processRx _ ff (TimerInv_init cfg addr)).1.1
+/-- `rx_iff`, first branch: 1.5 s later the deadline (1 s) is missed … -/
+example : ∃ t0, (rxMid'.advance 1500000000).timerCf.start = some t0 ∧
+    ((rxMid'.advance 1500000000).now - t0 > (rxMid'.advance 1500000000).cfg.tCf ∨
+      (rxMid'.advance 1500000000).cfg.tCf = 0) := ⟨0, by decide +kernel, Or.inl (by decide +kernel)⟩
+example : (rxMid'.advance 1500000000).checkTimeoutsRx.log.head? =
+    some (.err 1500000000 .ConsecutiveFrameTimeout) ∧
+    (rxMid'.advance 1500000000).checkTimeoutsRx.rxState = .idle := by decide +kernel
+/-- … second branch: half a second later it is not -/
+example : ¬ ∃ t0, (rxMid'.advance 500000000).timerCf.start = some t0 ∧
+    ((rxMid'.advance 500000000).now - t0 > (rxMid'.advance 500000000).cfg.tCf ∨
+      (rxMid'.advance 500000000).cfg.tCf = 0) := by
+  rintro ⟨t0, h1, h2⟩
+  have : (rxMid'.advance 500000000).timerCf.start = some 0 := by decide +kernel
+  rw [this] at h1; cases h1
+  revert h2; decide +kernel
+/-- hypotheses of `accepted_before_deadline` / `ncr_restart_points` -/
+example : CfInSeq rxMid' cf1 cf1d 1 [7, 8, 9, 10, 11, 12, 13] :=
+  ⟨by decide +kernel, rfl, by decide +kernel, by decide +kernel, Or.inl (by decide +kernel)⟩
+example : rxMid'.timerCf.start = some 0 ∧ 0 < rxMid'.cfg.tCf ∧
+    rxMid'.now + 900000000 ≤ 0 + rxMid'.cfg.tCf ∧ rxMid'.addr.rx.isForMe cf1 = true ∧
+    (rxMid'.cfBuf [7, 8, 9, 10, 11, 12, 13]).length < rxMid'.rxFrameLen := by decide +kernel
+example : FfAccepted (State.init cfg addr) ff ffd 20 [1, 2, 3, 4, 5, 6] false :=
+  ⟨by decide +kernel, rfl, by decide +kernel, by decide +kernel⟩
+/-- and the frame is indeed appended when it comes 0.9 s after the Flow Control -/
+example : ((rxMid'.rxArrive 900000000 cf1 []).processRx cf1).1.rxBuf =
+    [1, 2, 3, 4, 5, 6, 7, 8, 9, 10, 11, 12, 13] := by decide +kernel
+
+/-- transmitter waiting for the first Flow Control of a 20-byte message (First Frame sent at t = 0) -/
+def txMid : State :=
+  (((State.init cfg addr).send { id := 1, size := 20, src := List.replicate 20 5 }).1.process true true).1
+
+example : txMid.txState = .waitFc ∧ txMid.timerFc.start = some 0 ∧ txMid.pendingFc = false ∧
+    (txMid.active.map (·.id)) = some 1 ∧ txMid.txQueue = [] ∧ txMid.lastFc = none ∧
+    txMid.timerFc.timeout = txMid.cfg.tFc := by decide +kernel
+example : Reachable txMid := .process _ _ (.send _ (.init _ _))
+/-- `tx_timeout_fires`: 1.5 s later, even with a ContinueToSend just arrived -/
+example : let s := ((txMid.advance 1500000000).processRx fcCts).1
+    s.txState = .waitFc ∧ s.pendingFc = false ∧ s.txQueue = [] ∧ s.timerFc.start = some 0 ∧
+    (s.now - 0 > s.cfg.tFc) ∧ (s.lastFc.map (·.status)) = some 0 ∧
+    s.processTx.2.1 = none ∧ s.processTx.1.txState = .idle ∧
+    s.processTx.1.log.take 2 = [.done 1 false, .err 1500000000 .FlowControlTimeout] := by
+  decide +kernel
+/-- … in a state where the invariants hold (hypothesis of `one_tx_timeout_per_transfer`) -/
+example : TimerInv ((txMid.advance 1500000000).processRx fcCts).1 :=
+  TimerInv_processRx _ _ (reachable_timer_inv (.advance _ (.process _ _ (.send _ (.init _ _)))))
+/-- `tx_cts_honoured`: 0.5 s later the same Flow Control is honoured, a Consecutive Frame goes out -/
+example : let s := ((txMid.advance 500000000).processRx fcCts).1
+    s.txState = .waitFc ∧ s.now - 0 ≤ s.cfg.tFc ∧ 0 < s.cfg.tFc ∧
+    (s.lastFc.map (·.status)) = some 0 ∧
+    (s.processTx.2.1.map (·.data)) = some [0x21, 5, 5, 5, 5, 5, 5, 5] ∧
+    s.processTx.1.txState = .transmitCf := by decide +kernel
+/-- `tx_idle_quiet`: hypotheses hold in the initial state -/
+example : TxTimerInv (State.init cfg addr) ∧ (State.init cfg addr).txState = .idle :=
+  ⟨TxTimerInv_init _ _, rfl⟩
+
 end Isotp.C07
+
+#print axioms Isotp.C07.timer_inv_init
+#print axioms Isotp.C07.timer_inv_preserved
+#print axioms Isotp.C07.reachable_timer_inv
+#print axioms Isotp.C07.rx_idle_quiet
+#print axioms Isotp.C07.rx_idle_quiet_reachable
+#print axioms Isotp.C07.rx_waitCf_guarded
+#print axioms Isotp.C07.rxTimerInv_alone_not_inductive
+#print axioms Isotp.C07.rx_iff
+#print axioms Isotp.C07.rx_timeout_logged_iff
+#print axioms Isotp.C07.rxLoop_step
+#print axioms Isotp.C07.accepted_before_deadline
+#print axioms Isotp.C07.ncr_restart_points
+#print axioms Isotp.C07.tx_idle_quiet
+#print axioms Isotp.C07.tx_idle_pass_quiet
+#print axioms Isotp.C07.nbs_start_points
+#print axioms Isotp.C07.tx_timeout_fires
+#print axioms Isotp.C07.tx_timeout_fires_any_queue
+#print axioms Isotp.C07.tx_overflow_preempts_timeout
+#print axioms Isotp.C07.tx_before_deadline_quiet
+#print axioms Isotp.C07.tx_cts_honoured
+#print axioms Isotp.C07.one_rx_timeout_per_transfer
+#print axioms Isotp.C07.one_tx_timeout_per_transfer
